@@ -6,9 +6,9 @@ P: the same generated module built under several option sets; the same value lin
    build (reflection loader); encodings must be byte-identical, every build must decode every
    encoding to the same result, descriptor dumps may differ only where the options allow.
 """
-import re, collections, itertools, json
+import os, re, collections, itertools, json
 from concurrent.futures import ThreadPoolExecutor
-from .. import build, core, genmod, bundle, sexp, gfind
+from .. import build, core, genmod, bundle, sexp, gfind, c10_compile
 from . import c01, c16
 
 SYNTAXES = ("der", "uper", "oer", "xer", "cxer")
@@ -322,6 +322,7 @@ def run_module(ctx, st, m, bvals, sets, nvals, try_nocompound=True):
         lines = []; meta = []
         for n, t in m["types"]:
             lines.append(f"@{n} xdescr"); meta.append(("descr", n, None, None))
+            lines.append(f"@{n} descr"); meta.append(("cdescr", n, None, None))      # for the compiler-model leg
             feats = gfind.features(t, env)
             ok_syn = [syn for syn in SYNTAXES if not c01.skip_region(syn, feats, st.skipped)]
             vals = bvals[n] if bvals is not None else vg.values(t, nvals)
@@ -378,6 +379,17 @@ def run_module(ctx, st, m, bvals, sets, nvals, try_nocompound=True):
                                                                    "output_a": str(r), "output_b": str(o), "failure": why, "syntax": syn})
                 else:
                     if (o or "").startswith("ok "): ctx.count_nontrivial(("enc", m["name"], tn, syn, sx[:60], optname(B)))
+        # ---- the compiler model (Impl/CompileDescr.lean, told which of -fwide-types / -findirect-choice / -no-gen-PER /
+        #      -no-gen-OER are on) vs the descriptor tables of every option set, field by field
+        try:
+            items = []
+            for k, (i, exe, s) in enumerate(live):
+                nocomp = s == ("<no -fcompound-names>",)
+                dumps = {me[1]: outs[k][j] for j, me in enumerate(meta) if me[0] == "cdescr" and (outs[k][j] or "").startswith("(type ")}
+                items.append((m, full_opts(() if nocomp else s, not nocomp), dumps))
+            c10_compile.run_compile(ctx, items)
+        except ValueError as e:
+            ctx.log("compiler-model leg skipped for module", m["name"], ":", str(e)[:120])
         # ---- cross decoding: every build decodes every distinct encoding produced by any build
         dl = sorted(declines)
         dlines = [f"@{tn} xdec {syn} {hx}" for tn, syn, hx in dl]
